@@ -136,9 +136,25 @@ def _gen_step(s, kind=None):
     return st
 
 
+def _gen_many_plates(w, s, prop):
+    """A screen that the generators cut into MANY plates (1 001 ... 10 050): plate names / counters / ids past every
+    power of ten that a fixed-width buffer or a text sort might assume."""
+    m = w.choice([1, 2])
+    n_samples = w.choice([1005, 10050, 10050])
+    rows = []
+    for i in range(n_samples):
+        for j in range(m):
+            rows.append([f"s{i:05d}", [["a", 1.0], ["b", float(1 + j)]], 0.25 + 0.5 * ((i + j) % 2), "pl0", False])
+    steps = [dict(op="segregate", seed=s.randrange(2**31), advance=0, params=dict(max_plate_size=m))]
+    return dict(engine="prepsim", prop=prop, screen=dict(control="control", arity=2, rows=rows, layout="C"), steps=steps,
+                reuse_objects=False, mapping_extra=0)
+
+
 def gen_plan(prop, run_seed, tier):
     F = Forks(run_seed)
     w, s = F.fork("workload"), F.fork("schedule")
+    if w.random() < 0.004:
+        return _gen_many_plates(w, s, prop)
     spec = _gen_prep_screen(w, single_sample_plates=w.random() < 0.7, allow_arity=True)
     n = s.randint(1, 6)
     steps = []
@@ -164,7 +180,20 @@ def gen_plan(prop, run_seed, tier):
                 steps.insert(s.randint(steps.index(src) + 1, len(steps)), again)
                 if s.random() < 0.5:
                     steps.insert(steps.index(again), _gen_step(s, s.choice(["mask", "reveal", "filter"])))
-    return dict(engine="prepsim", prop=prop, screen=spec, steps=steps, reuse_objects=reuse)
+    # the input file of the preparation program is often one part of a larger screen: its stored mapping then lists
+    # samples / treatments that occur in none of its rows (0-3 of them), and some treatment may occur in single-agent
+    # rows only -- the alphabetically last one, which holds the highest id, included
+    extra = s.choice([0, 0, 0, 1, 1, 1, 2, 3])
+    if s.random() < 0.2 and spec["arity"] >= 2:
+        ctl = spec["control"]
+        real = sorted({(t[0], t[1]) for r in spec["rows"] for t in r[1] if t[0] != ctl and t[1] > 0})
+        if real:
+            last = real[-1]
+            for r in spec["rows"]:
+                if any((t[0], t[1]) == last for t in r[1]):
+                    k = next(i for i, t in enumerate(r[1]) if (t[0], t[1]) == last)
+                    r[1] = [[last[0], last[1]] if i == k else [ctl, 0.0] for i in range(len(r[1]))]
+    return dict(engine="prepsim", prop=prop, screen=spec, steps=steps, reuse_objects=reuse, mapping_extra=extra)
 
 
 # ------------------------------------------------------------------------- execution
@@ -286,7 +315,16 @@ def execute(prop, plan):
     log, stats = EventLog(), RunStats()
     J = Judge(prop, log, stats)
     try:
-        cur = gen.make_screen(plan["screen"])
+        k_extra = plan.get("mapping_extra", 0)
+        if k_extra:
+            spec = plan["screen"]
+            uni = dict(spec, rows=list(spec["rows"]) + [
+                [f"A_part_s{i}", [[f"A_part_t{i}", 1.0]] * spec["arity"], 0.5, spec["rows"][0][3], spec["rows"][0][4]] for i in range(k_extra)])
+            whole = gen.make_screen(uni)
+            cur = gen.make_screen(spec, treatment_mapping=whole.treatment_mapping, sample_mapping=whole.sample_mapping)
+            stats.probe("mapping_larger_than_rows")
+        else:
+            cur = gen.make_screen(plan["screen"])
     except Exception as e:
         log.ev("not-constructible", type(e).__name__)
         return dict(digest=log.digest(), violations=[], stats=stats.to_dict(), log_head=log.head)
